@@ -6,4 +6,10 @@ DurationsDef == {-1, 0, 1, 7, 250}
 TimesDef     == {-1, 0, 1, 2, 3}
 StepsDef     == {-1, 0, 1, 5, 100, 255, 300}
 PatternsDef  == {<<>>, <<1>>, <<0, 1>>, <<1, 0, 128>>, <<255, 2, 0>>, <<1, 300, 0>>, <<-1>>, <<0, 0, 1, 1>>}
+\* reduced grids for the quick tier
+BrightsQ   == {-1, 0, 1, 127, 255, 256}
+DurationsQ == {-1, 0, 7}
+TimesQ     == {0, 1, 2}
+StepsQ     == {0, 60, 255}
+PatternsQ  == {<<>>, <<1, 0, 128>>, <<1, 300, 0>>, <<0, 1>>}
 =============================================================================
